@@ -194,7 +194,7 @@ func c10Worker(args []string) {
 			pg := &gen.ProgGen{R: rr, E: &gen.ExprGen{R: rr, Env: env, Calls: true, IllTyped: 5}, CondFields: 2, MaxDepth: 3, MaxStmts: 4, Funcs: rr.Intn(3), Mutators: true, Faults: rr.Intn(3) == 0, ConstHeavy: rr.Intn(3) == 0}
 			script = gast.Text(pg.Program())
 		}
-		evr, err := eng.New(script, eng.Options{NoOptimize: noOpt, Vars: env.Vars, Budget: 200000})
+		evr, err := eng.New(script, eng.Options{NoOptimize: noOpt, Vars: env.Vars, Budget: 200000, TraceCap: 1 << 20})
 		if err != nil {
 			continue
 		}
